@@ -79,3 +79,78 @@ Definition tok5 (y s e : N) : bool :=
 Example C01_nonvacuous :
   forest_ok gE tok5 (fun p => p) true 1 0 5 true F_amb = true /\ length (root_trees F_amb) = 2%nat.
 Proof. vm_compute. split; reflexivity. Qed.
+
+(* ---- the GLR driver model (Model/GLR.v: GLRParser.parse, _find_lookaheads, _actor,
+   _do_reductions, _reduce, _do_shifts, GSSNode, Parent, Forest.__init__; compared with the
+   implementation on every run of C02/C17, harness/lib/glrcorr.py) -------------------------- *)
+From PV Require Import Model.Scan Model.Parser Model.GLR Spec.GLRSpec Proofs.GLRProofs Proofs.GLRWitness
+  Proofs.GLRWitnessData.
+
+(* Soundness of the driver, for ALL tables passing table_struct, ALL scanners (terminal data,
+   recognizer oracle rx, consume_input, lexical disambiguation), layout skippers, iteration
+   orders of the revisit set, start positions and fuel: every tree that unfolds from the root
+   of the returned forest -- through any sharing, any cycle, any of the driver's merges of
+   links under one "<frontier>_<state>" id -- is a derivation tree of the grammar rooted in
+   the start symbol.  Proof: a GSS invariant over node states (Proofs/GLRProofs.v) preserved
+   by every step of the machine. *)
+Theorem C01_glr_model_sound :
+  forall (g : grammar) (tb : table) (start : N),
+    table_struct g tb start = true ->
+    forall (terms : list term_info) (rx : N -> N -> option N) (in_len stop_id : N)
+           (consume lexdis : bool) (skipws : N -> skres) (rorder : list nat -> list nat -> list nat)
+           (fuel : nat) (pos : N) (nodes : forest) (root : nat),
+      glr_parse g tb terms rx in_len stop_id consume lexdis skipws rorder fuel pos = GLRForest nodes root ->
+      forall t, unfolds (glr_forest nodes root) (pred (length (glr_forest nodes root))) t ->
+                wf_tree g t /\ root_sym g t = Some (NT start).
+Proof. exact glr_sound. Qed.
+Print Assumptions C01_glr_model_sound.
+
+(* the same for the assembled parser (scanner of Model/Scan.v, ws or LAYOUT sub-parser,
+   CPython set order) that the correspondence check runs *)
+Theorem C01_glr_model_sound_full :
+  forall (c : pconf) (inp : pinput) (fuel : nat) (pos start : N) (nodes : forest) (root : nat),
+    table_struct (pc_g c) (pc_tb c) start = true ->
+    glr_parse_full c inp fuel pos = GLRForest nodes root ->
+    forall t, unfolds (glr_forest nodes root) (pred (length (glr_forest nodes root))) t ->
+              wf_tree (pc_g c) t /\ root_sym (pc_g c) t = Some (NT start).
+Proof. exact glr_full_sound. Qed.
+Print Assumptions C01_glr_model_sound_full.
+
+(* FULL STATEMENT, FALSE OF THE FAITHFUL MODEL (two refutations follow): "the model returns a
+   forest iff the input is a sentence, and the leaves of every tree of the forest are a
+   tokenisation of the input" (i.e. the forest passes forest_ok).
+   (1) a sentence is rejected (KF-C01-glr-false-reject: grammar S: A S A | EMPTY;
+       A: S S | A 'b' | 'a' 'b' S;  LALR, input "b"): the model returns GLRReject although a
+       derivation certified by the verified checker valid_parse/tsum exists. *)
+Theorem C01_glr_model_false_reject_refuted :
+  exists (c : pconf) (inp : pinput) (fuel : nat) (start : N) (t : tree),
+    pc_consume c = true /\
+    table_struct (pc_g c) (pc_tb c) start = true /\
+    glr_parse_full c inp fuel 0 = GLRReject /\
+    valid_parse c inp start 0 t = true /\
+    wf_tree (pc_g c) t /\ root_sym (pc_g c) t = Some (NT start).
+Proof. exact glr_model_false_reject. Qed.
+Print Assumptions C01_glr_model_false_reject_refuted.
+
+(* (2) a tree of the returned forest whose leaves are NOT a tokenisation of the input
+       (KF-C01-glr-invalid-tree-overlap: S: AA | AA A | S S; A: 'a'; AA: 'aa'; SLR, "aaaaaa":
+       the leaves aa[0,2) a[2,3) aa[4,6) skip the character at 3) *)
+Theorem C01_glr_model_overlap_refuted :
+  exists (c : pconf) (inp : pinput) (fuel : nat) (start : N) (nodes : forest) (root : nat) (t : tree),
+    pc_consume c = true /\
+    table_struct (pc_g c) (pc_tb c) start = true /\
+    glr_parse_full c inp fuel 0 = GLRForest nodes root /\
+    unfolds (glr_forest nodes root) (pred (length (glr_forest nodes root))) t /\
+    ~ chain_ok (skip_ws (pc_ws c) inp) (leaves t).
+Proof. exact glr_model_overlap. Qed.
+Print Assumptions C01_glr_model_overlap_refuted.
+
+(* non-vacuity of C01_glr_model_sound: E: E '+' E | 'n' on "n+n+n" -- the table passes
+   table_struct and the model returns a forest of 12 links whose root has two alternatives *)
+Example C01_glr_model_nonvacuous :
+  table_struct ok_g ok_tb ok_start = true /\
+  (match glr_parse_full ok_conf ok_inp wfuel 0 with
+   | GLRForest nodes root => Nat.eqb (length nodes) 12 && Nat.eqb (length (nth root nodes [])) 2
+   | _ => false
+   end) = true.
+Proof. exact ok_bool. Qed.
